@@ -18,6 +18,7 @@ import (
 	"github.com/cedar-policy/cedar-go/verif/c11"
 	"github.com/cedar-policy/cedar-go/verif/c12"
 	"github.com/cedar-policy/cedar-go/verif/c13"
+	"github.com/cedar-policy/cedar-go/verif/c18"
 	"github.com/cedar-policy/cedar-go/verif/c20"
 	"github.com/cedar-policy/cedar-go/verif/core"
 )
@@ -35,6 +36,7 @@ var registry = map[string]func() *core.Check{
 	"C11": c11.Check,
 	"C12": c12.Check,
 	"C13": c13.Check,
+	"C18": c18.Check,
 	"C20": c20.Check,
 }
 
